@@ -28,3 +28,8 @@ add("C18", "exploration",
     "Trusted: ref.CheckCanonical / ref.Truncate / ref.Decode. The pointer offset of zero-length lists, which the spec leaves open, is deliberately not constrained.",
     "property-based testing with a validity predicate + metamorphic relations (layout independence, idempotence) (rapid)",
     "DESIGN.md section 4, C18")
+add("C16", "exploration",
+    "Generated source trees in drawn encodings (incl. members of struct lists and of primitive lists, capability pointers with counted hooks) are assigned into fresh destination messages over five arena kinds through SetRoot, SetPtr, PointerList.Set, List.SetStruct and Struct.CopyFrom with smaller/equal/larger struct sizes, followed by same-message copy stages; the destination is decoded by the independent strict decoder and must equal the source under the documented version rule, all reachable objects must be pairwise disjoint, the source bytes must be untouched and are then scribbled over, and re-homed capabilities must index fresh table entries that hold their own reference (Shutdown counted across Reset of both messages).",
+    "Trusted: harness/ref encoder/decoder; CountingHook. Independence is asserted only for operations that are copies by documentation/implementation (cross-message, list members, SetStruct, CopyFrom), not for same-message SetPtr of a standalone object (which aliases).",
+    "property-based testing with independent decoder + structural disjointness invariant (rapid)",
+    "DESIGN.md section 4, C16")
